@@ -196,8 +196,8 @@ package pongo2
 //@   at (*NodeWrapper).Execute requires {C12} @body-in-child arg1 == withctx && withctx != ctx
 //@ func (*tagMacroNode).call
 //@   at mapupdate requires {C12,C13} @own-scope m != ctx.Private && m != ctx.Public && fresh(m)
-//@   invariant 0 {C12,C13} @every-parameter-is-bound-even-without-a-default forall k string :: seen[k] ==> has(argsCtx, k)
-//@   at (Context).Update requires {C12,C13} @all-parameters-shadow-outer-names arg0 == macroCtx.Private && arg1 == argsCtx && (forall k string :: has(node.args, k) ==> has(argsCtx, k))
+//@   invariant 0 {C08,C12,C13} @every-parameter-is-bound-even-without-a-default forall k string :: seen[k] ==> has(argsCtx, k)
+//@   at (Context).Update requires {C08,C12,C13} @all-parameters-shadow-outer-names arg0 == macroCtx.Private && arg1 == argsCtx && (forall k string :: has(node.args, k) ==> has(argsCtx, k))
 //@   at (*NodeWrapper).Execute requires {C12,C13} @body-in-child arg1 == macroCtx && macroCtx != ctx
 //@ func (tagBlockInformation).Super
 //@   at mapupdate requires {C12} @own-scope m == superCtx.Private && m != t.ctx.Private
@@ -208,8 +208,8 @@ package pongo2
 //@   at mapupdate requires {C12} @own-context m == includeCtx && m != ctx.Private && m != ctx.Public
 // the included template sees the includer's names with the same shadowing: the caller's context first, the names set
 // by tags on top of it
-//@   at (Context).Update#0 requires {C08,C12} @callers-names-first arg0 == includeCtx && arg1 == ctx.Public
-//@   at (Context).Update#1 requires {C08,C12} @names-set-by-tags-on-top arg0 == includeCtx && arg1 == ctx.Private
+//@   at (Context).Update#0 requires {C08,C12} @callers-names-first arg0 == includeCtx && arg1 == ctx.Public && !node.only
+//@   at (Context).Update#1 requires {C08,C12} @names-set-by-tags-on-top arg0 == includeCtx && arg1 == ctx.Private && !node.only
 // a failure of the nested execution (an execution error or an error of the writer) is handed on, never swallowed
 //@ func (*tagIncludeNode).wrapError
 //@   ensures {C14} @a-failure-stays-a-failure (err != nil && !(typeis(err, "*Error") && unbox(err, "*Error") == nil)) ==> r0 != nil
@@ -765,6 +765,7 @@ package pongo2
 //@ func (*tagFirstofNode).Execute
 //@   at IEvaluator.Evaluate requires {C09} @arguments-in-order arg0 == node.args[rangeindex + 1] && arg1 == ctx
 //@   at TemplateWriter.WriteString requires {C09} @prints-the-true-argument lastresult("(*Value).IsTrue") && arg0 == writer
+//@   at TemplateWriter.WriteString requires {C09} @truth-is-that-of-the-evaluated-argument VIsTrue(lastresult("IEvaluator.Evaluate"))
 //@   invariant 0 {C09} @nothing-printed-before-a-true-argument calls("TemplateWriter.WriteString") == 0
 //@   ensures {C09} @prints-at-most-one calls("TemplateWriter.WriteString") <= 1
 //@ func (*Parser).WrapUntilTag
@@ -1345,7 +1346,7 @@ package pongo2
 //@   invariant 1 {C01,C08} @current-can-be-inspected RVKind(current) == 0 || RVCanInterface(current)
 // each step of a dotted / subscripted name follows exactly one reflect operation (C08)
 //@ func (*variableResolver).resolve
-//@   at reflect.ValueOf#1 requires {C08} @names-set-by-tags-shadow-the-callers-context (has(ctx.Private, vr.parts[0].s) ==> arg0 == ctx.Private[vr.parts[0].s]) && (!has(ctx.Private, vr.parts[0].s) ==> (has(ctx.Public, vr.parts[0].s) ==> arg0 == ctx.Public[vr.parts[0].s]) && (!has(ctx.Public, vr.parts[0].s) ==> arg0 == nil))
+//@   at reflect.ValueOf#1 requires {C08,C12} @names-set-by-tags-shadow-the-callers-context (has(ctx.Private, vr.parts[0].s) ==> arg0 == ctx.Private[vr.parts[0].s]) && (!has(ctx.Private, vr.parts[0].s) ==> (has(ctx.Public, vr.parts[0].s) ==> arg0 == ctx.Public[vr.parts[0].s]) && (!has(ctx.Public, vr.parts[0].s) ==> arg0 == nil))
 //@   at (reflect.Value).MethodByName requires {C08} @method-of-that-name-on-the-value-as-it-is arg1 == part.s && part.typ == varTypeIdent
 //@   at (reflect.Value).Index#0 requires {C08} @sequence-element-at-the-written-index arg1 == part.i && part.typ == varTypeInt && 0 <= part.i && part.i < RVLen(arg0)
 //@   at fieldByName#0 requires {C08} @struct-field-of-that-name arg1 == part.s && part.typ == varTypeIdent
@@ -1521,3 +1522,72 @@ package pongo2
 // by its own evaluator (which applies its filter chain), in the current scope
 //@ func (*variableResolver).resolve
 //@   at IEvaluator.Evaluate#0 requires {C19} @each-item-of-a-list-literal-is-evaluated-with-its-own-filters arg0 == part.subscript && arg1 == ctx
+
+// ---- nil by origin (C01): results that may be nil are shown non-nil where they are dereferenced ----
+// an evaluator hands back a value or an error, never neither; checked on every evaluator of the package (flag refine)
+//@ iface IEvaluator.Evaluate(recv, ctx) (r0, r1)
+//@   flag refine
+//@   ensures {C01} @a-value-or-an-error r1 == nil ==> r0 != nil
+// the pointers held in token lists, in the block table of a template and in interfaces holding a cycle value are
+// never nil: an obligation at every write (element store, map update, boxing, non-empty make), a fact at every read
+//@ nonnil {C01} E|Int|PToken MV|Str|Int|mapLstringRPNodeWrapper MV|Str|Int|mapLstringRPtag B|*tagCycleValue
+//@ func (*variableResolver).resolve
+//@   ensures {C01} @a-value-or-an-error r1 == nil ==> r0 != nil
+//@ func (*Value).Negate
+//@   ensures {C01} @never-nil r0 != nil
+//@ functype FilterFunction(in, param) (r0, r1)
+//@   requires {C01} @input-and-parameter-given in != nil && param != nil
+//@   ensures {C01} @a-value-or-an-error r1 == nil ==> r0 != nil
+//@ func (*filterCall).Execute
+//@   requires {C01} @input-given v != nil
+//@   ensures {C01} @a-value-or-an-error r1 == nil ==> r0 != nil
+//@ func ApplyFilter
+//@   requires {C01} @input-given value != nil
+//@   ensures {C01} @a-value-or-an-error r1 == nil ==> r0 != nil
+//@ func (*Parser).parseDocument
+//@   requires {C01} @position-not-negative 0 <= p.idx
+//@   invariant 0 {C01} @position-not-negative 0 <= p.idx
+//@ func (*Parser).parseDocElement
+//@   requires {C01} @at-an-existing-token 0 <= p.idx && p.idx < len(p.tokens)
+
+// ---- strengthened after the fifth round of seeded changes ----
+// String(): for a value that is neither nil, nor a Stringer, nor a string, number or boolean, the text is what reflect
+// prints for it (its type name): no other route hands out text of the caller (C02: such text would not be escaped)
+//@ func (*Value).String
+//@   ensures {C02} @other-kinds-print-as-reflect-prints-them (!VIsNil(v) && !implements(VInterface(v), "fmt.Stringer") && RVKind(Resolved(v.val)) != 24 && !(1 <= RVKind(Resolved(v.val)) && RVKind(Resolved(v.val)) <= 11) && RVKind(Resolved(v.val)) != 13 && RVKind(Resolved(v.val)) != 14) ==> r0 == RVString(Resolved(v.val))
+// the safe mark of a resolved name is that of the *Value unpacked last on the way, never one picked up earlier
+//@ func (*variableResolver).resolve
+//@   iterend 1 {C02} @the-safe-mark-is-that-of-the-value-unpacked-last lastassert("*Value") != atiter(1, lastassert("*Value")) ==> next_isSafe == lastassert("*Value", "safe")
+// a name step prefers a method of that name on the value as it is; the other look-ups happen only when there is none
+//@   at (reflect.Value).MapIndex#0 requires {C08} @no-method-of-that-name RVKind(lastresult("(reflect.Value).MethodByName")) == 0
+//@   at fieldByName#0 requires {C08} @no-method-of-that-name RVKind(lastresult("(reflect.Value).MethodByName")) == 0
+// nesting level: a tag's parser runs one level deeper than the construct containing the tag, and every function leaves the
+// level as it found it (extends is only allowed on level 1, the root of the document)
+//@ preserved {C10} Template.level
+//@ functype TagParser(doc, start, arguments) (r0, r1)
+//@   ensures {C10} @leaves-the-nesting-level-as-it-found-it doc.template.level == old(doc.template.level)
+//@ func (*Parser).parseTagElement$1
+//@   flag unbalanced
+//@   assigns p.template.level
+//@   ensures p.template.level == wrap64(old(p.template.level) - 1)
+//@ func (*Parser).parseTagElement
+//@   at TagParser requires {C10} @one-level-deeper-than-the-enclosing-construct p.template.level == wrap64(old(p.template.level) + 1)
+// a template has options of its own (a copy of its set's): changing them on one template changes no other
+//@ func newTemplate
+//@   ensures {C15} @own-copy-of-the-sets-options r1 == nil ==> (r0 != nil && r0.Options != set.Options && fresh(r0.Options))
+// every newline that is taken as literal text starts a new line (line counter and column)
+//@ func (*lexer).run
+//@   iterend 0 {C16} @a-newline-taken-as-text-starts-a-new-line (l.pos == old(l.pos) + 1 && strat(l.input, old(l.pos)) == 10 && !l.errored) ==> (l.line == wrap64(old(l.line) + 1) && l.col == 1)
+// escapejs: the result is what was written to the buffer, for every input
+//@ func filterEscapejs
+//@   at AsValue requires {C17} @result-is-the-escaped-text typeis(arg0, "string") && unbox(arg0, "string") == lastresult("(*bytes.Buffer).String")
+// floatformat prints a whole number as an integer only if it is one the integer type can hold
+//@ func filterFloatformat
+//@   at (*Value).Integer#1 requires {C18} @a-whole-number-that-fits-the-integer-type feq(tofloat(toint(val)), val)
+//@ func MustApplyFilter
+//@   flag maypanic
+//@   requires {C01} @input-given value != nil
+//@ func (*Value).Index
+//@   ensures {C01} @never-nil r0 != nil
+//@ func (*Value).Slice
+//@   ensures {C01} @never-nil r0 != nil
